@@ -25,14 +25,15 @@ import (
 // e2SchedArgs describes a whole-system concurrency scenario: a sequential setup, then concurrent
 // activities explored by the schedule search, then the fault-free closure with oracles.
 type e2SchedArgs struct {
-	E2      E2Params    `json:"e2"`
-	Setup   []pt.Action `json:"setup"`
-	Conc    []pt.Action `json:"conc"`     // each runs as one activity
-	AtPoint []string    `json:"at_point"` // oracles evaluated at every decision point: snapshots
-	AtEnd   []string    `json:"at_end"`   // oracles at the end (after closure): log converge applied issued reference snapshots onedoc quiescent
-	NoClose bool        `json:"no_close"` // do not run closing syncs (realtime convergence must happen by itself)
-	Policy  schedPolicy `json:"policy"`   // default schedule around which deviations are counted
-	GiveUps int         `json:"give_ups"` // how often a caller may give up (cancel its context) in the middle of a push-pull call
+	E2         E2Params    `json:"e2"`
+	Setup      []pt.Action `json:"setup"`
+	Conc       []pt.Action `json:"conc"`        // each runs as one activity
+	AtPoint    []string    `json:"at_point"`    // oracles evaluated at every decision point: snapshots
+	AtEnd      []string    `json:"at_end"`      // oracles at the end (after closure): log converge applied issued reference snapshots onedoc quiescent
+	NoClose    bool        `json:"no_close"`    // do not run closing syncs (realtime convergence must happen by itself)
+	Policy     schedPolicy `json:"policy"`      // default schedule around which deviations are counted
+	GiveUps    int         `json:"give_ups"`    // how often a caller may give up (cancel its context) in the middle of a push-pull call
+	RepoPoints bool        `json:"repo_points"` // statements of the repository layer (server/mongodb) are scheduling points
 }
 
 // callers whose map iterations run in reversed key order (see verifrt.OrderHook)
@@ -292,6 +293,15 @@ func init() {
 				}
 			}
 			verifrt.GoHook = func(site string) { m.sys.Sched.Gate("go:" + site) }
+			verifrt.PointHook = nil
+			if sa.RepoPoints {
+				// the repository layer's statements are scheduling points too (between building a command's arguments and issuing it)
+				verifrt.PointHook = func(site string) {
+					if strings.HasPrefix(site, "mongodb/") {
+						m.sys.Sched.Gate("pt:" + site)
+					}
+				}
+			}
 			var errs []string
 			var mu sync.Mutex
 			var setupViol *pt.Violation
@@ -625,7 +635,7 @@ func init() {
 				}
 				return nil
 			}
-			return acts, atPoint, atEnd, func() { vsync.Hook = nil; verifrt.GoHook = nil; m.Shutdown() }
+			return acts, atPoint, atEnd, func() { vsync.Hook = nil; verifrt.GoHook = nil; verifrt.PointHook = nil; m.Shutdown() }
 		}}
 	}
 }
